@@ -47,6 +47,7 @@ Record linv (s : sys) (T : N) : Prop := {
   l_nu : forall k m, lamk s T k = Some m -> kget s T k <> Unlocked;
   l_okcnt : forall r ks m o k, In (EPwReply r T ks (PwOk m o)) (s_dlv s) -> In k ks -> kc s T KNegD k < kc s T KDlv k;
   l_cntle : forall k, kc s T KNegD k <= kc s T KDlv k;
+  l_lamcnt : forall k m, lamk s T k = Some m -> kc s T KNegD k < kc s T KDlv k;
   l_csl_sub : forall r ks st, In (ECslReply r T ks st) (s_csl s) -> In (ECslReply r T ks st) (s_dlv s);
   l_csl_sent : forall r ks st, In (ECslReply r T ks st) (s_dlv s) -> In (ECslSend r T ks) (s_sent s);
   l_pcok : hasm s T -> F s T FPcOk <> 0 -> kget s T (prim s T) = Committed (F s T FPcOk);
